@@ -769,7 +769,9 @@ def pymethod(ex, o, name, args, kw):
         return SymList(o.arr, o.length, o.is_int)
     if isinstance(o, (BStr, str)):
         if name == "format":
-            return OpaqueStr("format")
+            r = OpaqueStr("format")
+            r.template, r.args, r.kwargs = o, list(args), dict(kw)  # kept so that contracts can state what is shown
+            return r
         if isinstance(o, str) and all(isinstance(a, (str, int)) for a in args):
             if name in ("join",):
                 pass
